@@ -10,7 +10,7 @@
    the resulting state is the initial one whatever those functions would do.
    A response `HStatus c` carries no payload: nothing of the server's state. *)
 From Coq Require Import List NArith Bool String.
-From Verif Require Import Lib.Hex Gen.Routes Model.HttpAuth Proofs.HttpAuth.
+From Verif Require Import Lib.Hex Gen.Routes Model.HttpAuth Proofs.HttpAuth Proofs.HttpBase64.
 Import ListNotations.
 Local Open Scope N_scope.
 
@@ -43,6 +43,23 @@ Theorem no_swissnum_no_effect :
     = (st, HStatus (match auth_header rq with None => 400 | Some _ => 401 end)).
 Proof. exact serve_no_swissnum. Qed.
 Print Assumptions no_swissnum_no_effect.
+
+(* "Without the server's correct swissnum": base64 loses nothing, so the header built from
+   any other swissnum (byte strings) differs from the expected one -> 401, nothing happens. *)
+Theorem base64_roundtrip :
+  forall b, Forall is_byte b -> b64decode (b64encode b) = Some b.
+Proof. exact b64_roundtrip. Qed.
+Print Assumptions base64_roundtrip.
+
+Theorem other_swissnum_rejected :
+  forall (B R RTW : Type) bucket_write bucket_abort already_uploaded backend_rtw
+         swissnum swissnum' required more xauth (a : action B R RTW) st,
+    Forall is_byte swissnum -> Forall is_byte swissnum' -> swissnum' <> swissnum ->
+    serve B R RTW bucket_write bucket_abort already_uploaded backend_rtw swissnum required
+          (mk_request (Some (swissnum_auth_header swissnum') :: map Some more) xauth) a st
+    = (st, HStatus 401).
+Proof. exact other_swissnum_ok. Qed.
+Print Assumptions other_swissnum_rejected.
 
 (* Correct swissnum, but the X-Tahoe-Authorization set is bad: a header that does not
    parse (no space, unknown kind, undecodable or empty base64, lease secret that is not
